@@ -1,7 +1,7 @@
 // Code -> spec for C11: drives the real Ripser engine with random inputs far beyond the bounded model and records
 // input + everything the callbacks received as NDJSON events for Trace_Ripser.tla (which recomputes the diagram
 // with the algorithmic operators of RipsPersistence.tla).
-//   usage: ripser_record out.ndjson seed nevents dense|sparse|boundary max_simplices
+//   usage: ripser_record out.ndjson seed nevents dense|sparse|boundary|deep max_simplices
 // dense : 5..9 points, tie-rich integer dissimilarities (uniform, with zeros, metrics of points on a line or of the
 //         corners of a 3x4 rectangle - these are also fed as Euclidean point clouds -, shortest-path metrics of small
 //         graphs, multipartite dissimilarities whose short edges span joins of discrete sets = wedges of spheres, and
@@ -13,6 +13,7 @@
 //         dim_max chosen so that bits_per_vertex*(dim_max+2)+bits(p-1) falls in each range of the dispatcher (<=64,
 //         <=128, beyond), primes 2, 3, 5, 65521.  The simplex encoding each run used is recorded (formula of help1).
 // boundary: 127..131 vertices, a tiny graph, dim_max 120..n-2 and beyond (the limits of dimension_t = int8_t).
+// deep : see random_deep (encoded simplex indices beyond 64 bits; no oracle, the forms must agree).
 // An input whose Rips complex (dimension <= dim_max+1, after truncation) has more than max_simplices simplices gets a
 // smaller dim_max, so that TLC recomputes every event in well under a second.
 #include "ripser_common.hpp"
@@ -205,12 +206,38 @@ static Input random_boundary(Rng& g) {
   return in;
 }
 
+// simplices whose encoded index needs more than 64 bits: a dense random graph on the 13..17 highest of 512 (or 64)
+// vertices, dim_max 9..13 (bit field of 128 bits, combinatorial number system), mostly odd primes.  Such a complex has
+// thousands of simplices: no oracle (Trace_Ripser.tla then only checks that the forms agree and the structural clauses).
+static Input random_deep(Rng& g, long limit) {
+  Input in;
+  in.dense = false;
+  in.n = pick<int>(g, {512, 512, 512, 64});
+  const int n = in.n;
+  for (int attempt = 0; attempt < 30; ++attempt) {
+    in.edges.clear();
+    const int k = rnd(g, 13, 17), prob = rnd(g, 82, 94), wmax = rnd(g, 1, 2);
+    for (int b = n - k; b < n; ++b)
+      for (int a = n - k; a < b; ++a)
+        if (rnd(g, 0, 99) < prob) in.edges.push_back(Edge{a, b, rnd(g, 1, wmax)});
+    in.dmax = n == 64 ? 12 : pick<int>(g, {9, 9, 13});
+    in.p = pick<unsigned>(g, {3, 3, 5, 65521, 2});
+    in.t = -1;
+    if (count_cliques(in, -1, in.dmax + 1, 20000) <= 20000) break;
+  }
+  (void)limit;
+  return in;
+}
+
 static void record_event(Rng& g, vf::Trace& tr, int kind, long limit) {
-  Input in = kind == 0 ? random_dense(g, limit) : kind == 1 ? random_sparse(g, limit) : random_boundary(g);
+  Input in = kind == 0 ? random_dense(g, limit) : kind == 1 ? random_sparse(g, limit) : kind == 2 ? random_boundary(g) : random_deep(g, limit);
+  isolate_all() = kind == 3;
   bj::object e = jinput(in);
   e["op"] = "ripser";
-  e["value"] = value_name();
-  e["nsimp"] = count_cliques(in, in.dense ? eff_threshold(in) : -1, in.dmax + 1, 1000000);
+  e["value"] = build_name();
+  const long nsimp = count_cliques(in, in.dense ? eff_threshold(in) : -1, in.dmax + 1, 1000000);
+  e["nsimp"] = nsimp;
+  e["oracle"] = kind != 3 || nsimp <= limit;   // false: too large for the trace specification to recompute the diagram
   bj::array runs;
   long f = 0;
   for (auto& form : in.dense ? dense_forms() : sparse_forms()) {
@@ -218,8 +245,9 @@ static void record_event(Rng& g, vf::Trace& tr, int kind, long limit) {
     if (!applicable(form, in)) continue;
     if (form == "auto_upper_of_lower" && tr.n % 8 != 0) continue;   // crashes (known finding): a child process each time
     if (kind == 2 && form != "auto_sparse" && form != "ripser_sparse") continue;
+    if (kind == 3 && (form == "auto_sparse_shuffled" || form == "auto_sparse_threshold_arg_ignored")) continue;
     const bool none_as_max = ((tr.n + f) & 1) != 0;
-    vf::crash_ctx().where = std::string(value_name()) + ":" + form + " " + bj::serialize(jinput(in));
+    vf::crash_ctx().where = std::string(build_name()) + ":" + form + " " + bj::serialize(jinput(in));
     Run r = needs_isolation(form, in) ? run_form_isolated(form, in, none_as_max) : run_form(form, in, none_as_max);
     bj::object ro{{"form", form}, {"enc", encoding_of(form, in)}, {"dims", vf::jarr(r.dims)}, {"out", jbars(r.out)}};
     if (!r.exception.empty()) ro["exception"] = r.exception;
@@ -235,11 +263,11 @@ int main(int argc, char** argv) {
 #else
 int record_main(int argc, char** argv) {
 #endif
-  if (argc < 6) { std::cerr << "usage: ripser_record out.ndjson seed nevents dense|sparse|boundary max_simplices" << std::endl; return 2; }
+  if (argc < 6) { std::cerr << "usage: ripser_record out.ndjson seed nevents dense|sparse|boundary|deep max_simplices" << std::endl; return 2; }
   Rng g(std::strtoull(argv[2], nullptr, 10));
   const long n = std::atol(argv[3]);
   const std::string ks = argv[4];
-  const int kind = ks == "dense" ? 0 : ks == "sparse" ? 1 : 2;
+  const int kind = ks == "dense" ? 0 : ks == "sparse" ? 1 : ks == "boundary" ? 2 : 3;
   const long limit = std::atol(argv[5]);
   vf::Trace tr(argv[1]);
   vf::crash_ctx().out = tr.f;
